@@ -116,6 +116,69 @@ var handmadeFedOps = map[string][]*fedlab.Sel{
 		on("A", fld("extra"), fld("owner", fld("name"))))},
 }
 
+// handmadeNestedConfig: lists of lists (knob nestedlists) -- the shape of the loader defect repaired by /repo 3202cc0
+// ("select the entities below a list of lists for entity fetches") and an interface over it:
+//
+//	grid:   type Query { board: [[Cell]]  shapes: [Shape] }  type Cell @key(fields: "id") { id: ID! }
+//	        interface Shape { cells: [[Cell]] }  type Sq implements Shape { cells side: Int }  type Tri implements Shape { cells }
+//	extras: type Cell @key(fields: "id") { id: ID! extra: String }
+//
+// board = [[c1, null, c2], null, [], [c1]]: a null and an empty inner list, a null item, c1 in two inner lists.
+func handmadeNestedConfig() (*fedlab.Config, *fedlab.Universe) {
+	idf := func() *fedlab.FieldDef { return &fedlab.FieldDef{Name: "id", Type: fedlab.NonNull(fedlab.Named("ID"))} }
+	ll := func(n string) *fedlab.TypeRef { return fedlab.ListOf(fedlab.ListOf(fedlab.Named(n))) }
+	cells := func() *fedlab.FieldDef { return &fedlab.FieldDef{Name: "cells", Type: ll("Cell")} }
+	super := &fedlab.Schema{Query: "Query", Types: []*fedlab.TypeDef{
+		{Kind: fedlab.KObject, Name: "Query", Fields: []*fedlab.FieldDef{{Name: "board", Type: ll("Cell")}, {Name: "shapes", Type: fedlab.ListOf(fedlab.Named("Shape"))}}},
+		{Kind: fedlab.KObject, Name: "Cell", Fields: []*fedlab.FieldDef{idf(), {Name: "extra", Type: fedlab.Named("String")}}},
+		{Kind: fedlab.KInterface, Name: "Shape", Fields: []*fedlab.FieldDef{cells()}},
+		{Kind: fedlab.KObject, Name: "Sq", Implements: []string{"Shape"}, Fields: []*fedlab.FieldDef{cells(), {Name: "side", Type: fedlab.Named("Int")}}},
+		{Kind: fedlab.KObject, Name: "Tri", Implements: []string{"Shape"}, Fields: []*fedlab.FieldDef{cells()}},
+	}}
+	sf := func(names ...string) []*fedlab.SubField {
+		var out []*fedlab.SubField
+		for _, n := range names {
+			out = append(out, &fedlab.SubField{Name: n})
+		}
+		return out
+	}
+	cfg := &fedlab.Config{Super: super, Lookups: map[string]fedlab.Lookup{}, Subgraphs: []*fedlab.Subgraph{
+		{Name: "grid", Types: []*fedlab.SubType{
+			{Name: "Query", Fields: sf("board", "shapes")}, {Name: "Cell", Keys: []string{"id"}, Fields: sf("id")},
+			{Name: "Shape", Fields: sf("cells")}, {Name: "Sq", Fields: sf("cells", "side")}, {Name: "Tri", Fields: sf("cells")}}},
+		{Name: "extras", Types: []*fedlab.SubType{
+			{Name: "Query"}, {Name: "Cell", Keys: []string{"id"}, Fields: sf("id", "extra")}}},
+	}}
+	sc := func(s string) *fedlab.FVal { return &fedlab.FVal{Kind: fedlab.FSc, JSON: fedlab.JS(s)} }
+	ref := func(t, k string) *fedlab.FVal { return &fedlab.FVal{Kind: fedlab.FRef, Type: t, Key: k} }
+	lst := func(items ...*fedlab.FVal) *fedlab.FVal { return &fedlab.FVal{Kind: fedlab.FLst, Items: items} }
+	null := func() *fedlab.FVal { return &fedlab.FVal{Kind: fedlab.FNullRef} }
+	nullList := func() *fedlab.FVal { return &fedlab.FVal{Kind: fedlab.FSc, JSON: fedlab.JN()} }
+	c1, c2 := ref("Cell", "c1"), ref("Cell", "c2")
+	uni := &fedlab.Universe{Ents: []*fedlab.Entity{
+		{Type: "Query", Key: "", Fields: []fedlab.FV{
+			{Name: "board", Val: lst(lst(c1, null(), c2), nullList(), lst(), lst(c1))},
+			{Name: "shapes", Val: lst(ref("Sq", "sq1"), ref("Tri", "tri1"))}}},
+		{Type: "Cell", Key: "c1", Fields: []fedlab.FV{{Name: "id", Val: sc("c1")}, {Name: "extra", Val: sc("extra-c1")}}},
+		{Type: "Cell", Key: "c2", Fields: []fedlab.FV{{Name: "id", Val: sc("c2")}, {Name: "extra", Val: sc("extra-c2")}}},
+		{Type: "Sq", Key: "sq1", Fields: []fedlab.FV{{Name: "cells", Val: lst(lst(c1), lst(c2, c1))}, {Name: "side", Val: &fedlab.FVal{Kind: fedlab.FSc, JSON: fedlab.JNumRaw("2")}}}},
+		{Type: "Tri", Key: "tri1", Fields: []fedlab.FV{{Name: "cells", Val: lst(lst(c2), lst())}}},
+	}}
+	return cfg, uni
+}
+
+var handmadeNestedOps = map[string][]*fedlab.Sel{
+	// passes on a correct engine (regression guard for /repo 3202cc0): Cell.extra lives in the other subgraph, the
+	// parent objects of the _entities fetch sit below a list of lists
+	"entity-fetch-below-list-of-lists": {fld("board", fld("id"), fld("extra"))},
+	// the same below an interface, the hop selected bare and once more under one implementer
+	"entity-fetch-below-list-of-lists-on-interface": {fld("shapes", fld("cells", fld("extra")), on("Sq", fld("side")))},
+	// one subgraph would do: `cells` selected on the interface and once more under `... on Sq`; postprocess merges the two
+	// `cells` fields, but mergeValues only looks through ONE resolve.Array level, so the second field's sub-selection
+	// (id) is dropped from the response plan: the data is fetched and never rendered
+	"merge-fields-drops-selection-below-list-of-lists": {fld("shapes", fld("cells", fld("__typename")), on("Sq", fld("cells", fld("id"))))},
+}
+
 func fld(name string, sels ...*fedlab.Sel) *fedlab.Sel {
 	return &fedlab.Sel{Kind: fedlab.SField, Name: name, Sels: sels}
 }
@@ -165,12 +228,20 @@ func cmdHandmade(a map[string]string) {
 		cfg, uni = handmadeFedConfig()
 		knobs = fedlab.Knobs{"interfaces": true, "lists": true, "nonnull": true, "inlinefragments": true, "scopedhops": true}
 	}
+	if nsels, nok := handmadeNestedOps[a["name"]]; nok {
+		sels, ok = nsels, true
+		cfg, uni = handmadeNestedConfig()
+		knobs = fedlab.Knobs{"interfaces": true, "lists": true, "nulls": true, "inlinefragments": true, "nestedlists": true}
+	}
 	if !ok {
 		fmt.Println("unknown name; known:")
 		for n := range handmadeOps {
 			fmt.Println("  " + n)
 		}
 		for n := range handmadeFedOps {
+			fmt.Println("  " + n)
+		}
+		for n := range handmadeNestedOps {
 			fmt.Println("  " + n)
 		}
 		os.Exit(2)
